@@ -65,6 +65,23 @@ Theorem configured_limits_are_the_policy : forall mt lims p, policy_of_config mt
 Proof. exact policy_of_config_lemma. Qed.
 Print Assumptions configured_limits_are_the_policy.
 
+(* ... and the validation step in front of it, translated from config.RecursionFirewallConfig.Validate: only the
+   three mode names are accepted (anything else makes MustRecursionWorkPolicyFromConfig panic), and a known mode
+   with non-zero limits and failure-cache fields in range is accepted as configured *)
+Theorem validate_refuses_unknown_modes : forall c, go_RecursionFirewallConfig_Validate c = false ->
+  known_mode (T_RecursionFirewallConfig_Mode c) /\ limits_set c.
+Proof. exact gen_validate_refuses. Qed.
+Print Assumptions validate_refuses_unknown_modes.
+
+Theorem validate_accepts_normalised_configs : forall c, known_mode (T_RecursionFirewallConfig_Mode c) -> limits_set c ->
+  (0 < T_RecursionFirewallConfig_FailureCacheSize c)%Z ->
+  (1000000000 <= T_Duration_Duration (T_RecursionFirewallConfig_FailureCacheMinTTL c))%Z ->
+  (T_Duration_Duration (T_RecursionFirewallConfig_FailureCacheMinTTL c) <= T_Duration_Duration (T_RecursionFirewallConfig_FailureCacheMaxTTL c))%Z ->
+  (T_Duration_Duration (T_RecursionFirewallConfig_FailureCacheMaxTTL c) <= 300000000000)%Z ->
+  go_RecursionFirewallConfig_Validate c = false.
+Proof. exact gen_validate_accepts. Qed.
+Print Assumptions validate_accepts_normalised_configs.
+
 (* ---- (i) the ledger.  For every number of threads, every list of debits per thread and EVERY
    schedule of the atomic steps (Load; compare, CompareAndSwap): in every reachable state, per kind,
    the counter equals the number of accepted debits and never passes the cap. *)
